@@ -274,6 +274,14 @@ type rtRun struct {
 	submits      []rtSubmit
 	maxQueue     int
 	free         atomic.Bool
+	srcErrs      []rtSrcErrGot
+	lateResults  []string
+}
+
+type rtSrcErrGot struct {
+	code int
+	skip bool
+	step int
 }
 
 type rtCbGot struct {
@@ -373,6 +381,7 @@ func (r *rtRun) hook(point string, args ...any) {
 			var se *rtSrcErr
 			errors.As(e, &se)
 			data = fmt.Sprintf("error:%d", se.code)
+			r.srcErrs = append(r.srcErrs, rtSrcErrGot{code: se.code, skip: r.monSkip, step: r.stepNo})
 		case "done":
 			data = fmt.Sprintf("done:%d", args[1].(*rtSource).idx)
 		case "enable":
